@@ -243,6 +243,13 @@ class Loader(yaml.SafeLoader):
         # remove syntactic sugar
         logger.debug('Savorizing node {}'.format(node))
         if recognized_type in self._registered_classes.values():
+            if (
+                    issubclass(recognized_type, enum.Enum)
+                    and isinstance(node, yaml.ScalarNode)
+                    and node.tag == 'tag:yaml.org,2002:bool'):
+                # don't read this as a bool but as a string
+                node.tag = 'tag:yaml.org,2002:str'
+
             try:
                 node = self.__savorize(node, recognized_type)
             except SeasoningError as e:
